@@ -122,6 +122,9 @@ TEMPLATES = [
     {"cls": "type", "t": "from t | take «foo:1» 2", "nospan": True},
     {"cls": "type", "t": "from t | select {a, «t.*»} | intersect (from u | select {c})", "check_tok": False},
     {"cls": "type", "t": "from t | derive {x = s\"{«t»}\"}"},
+    {"cls": "type", "t": "from t | group a («join u (==id)»)"},
+    {"cls": "type", "t": "let f = func a -> «internal nope»\nfrom t | derive x = (f 1)"},
+    {"cls": "type", "t": "from t | select {a} | «append null»", "nospan": True},
     {"cls": "sql", "t": "from t | take 9223372036854775807.. | «take 2..»", "nospan": True},
     {"cls": "sql", "t": "from «s\"SELEC * FROM t\"»", "nospan": True},
     {"cls": "sql", "t": "from t | «remove u»", "target": "sql.sqlite", "nospan": True},
@@ -189,3 +192,15 @@ def interp_templates(rng, n):
             d["known"] = "interp-rebase"
         out.append(d)
     return out
+
+
+# ---------------------------------------------------------------------------- file-tree inputs (harness c13tree)
+# errors that only a SourceTree can provoke; `path` is a string or a list of bytes (a path that is not UTF-8);
+# `want` = the message (prefix) of the Error::new_simple site the case exists for; all of them carry no span on HEAD
+TREE_CASES = [
+    {"files": [], "want": "No `.prql` files found in the source tree"},
+    {"files": [["a.prql", "from t"], ["b.prql", "let x = 1"]], "want": "Cannot find the root module within the following files:"},
+    {"files": [["Project.prql", "from t"], [[120, 47, 255, 46, 112, 114, 113, 108], "let z = 1"]], "want": "Invalid file path: "},
+    {"files": [["Project.prql", "from t | select {a}"]], "database": ["db"], "want": "this table is not in the current database"},
+    {"files": [["Project.prql", "# é\nfrom t | select {a}"], ["m.prql", "let o_ = 1"]], "database": ["db"], "want": "this table is not in the current database"},
+]
